@@ -195,6 +195,21 @@ class SymSeq:
         return MISSING
 
 
+class SymIter:
+    """A ONE-SHOT iterable (generator, iterator): the first traversal yields the sequence, every later traversal is
+    empty.  Arguments annotated `Iterable[...]` are modelled with it, so that traversing one twice is noticed."""
+
+    def __init__(self, seq: SymSeq):
+        self.seq = seq
+        self.consumed = False
+
+    def consume(self):
+        if self.consumed:
+            return SymSeq(0, lambda i: None, distinct=True)
+        self.consumed = True
+        return self.seq
+
+
 class SymList:
     """Growable list of symbolic length (loop-carried accumulators)."""
 
